@@ -294,7 +294,7 @@ Section Float.
   Qed.
 
   (** ** (2) one dimension of the inverse CDF.
-      Hypothesis on dimension [d] of the grid, in the model's own operations: every bin has two boundaries,
+      Requirement on dimension [d] of the grid, in the model's own operations: every bin has two boundaries,
       both finite, with 0 <= left <= right <= 1. *)
   Definition slice_ok (p : pdf KB) (d : N) : Prop :=
     forall b, (b < pdf_bins p)%N ->
